@@ -70,3 +70,6 @@ B("c04-benign-script-root-flag-renamed",
   (RD, "        let at_root = self.get_parent_tag().eq(TAG_SCXML);\n\n        if !at_root {", "        let top_level = self.get_parent_tag().eq(TAG_SCXML);\n\n        if !top_level {"),
   (RD, "        if at_root {\n            self.start_executable_content_region(false, TAG_SCRIPT);\n        }", "        if top_level {\n            self.start_executable_content_region(false, TAG_SCRIPT);\n        }"),
   (RD, "        if at_root {\n            self.fsm.script = self.end_executable_content_region(TAG_SCRIPT);\n        }", "        if top_level {\n            self.fsm.script = self.end_executable_content_region(TAG_SCRIPT);\n        }"))
+# a repair of D22 must be accepted by R04.4
+B("c04-repair-d22-unescape", (RD, "                let r = self.content[(span.start as usize)..(span.end as usize)]\n                    .trim()\n                    .to_string();",
+                              "                let r = quick_xml::escape::unescape(self.content[(span.start as usize)..(span.end as usize)].trim())\n                    .unwrap()\n                    .to_string();"))
